@@ -1473,10 +1473,16 @@ func genText(r *rng) []byte {
 				d = []int{9999, 10000, 10001}[r.n(3)]
 			}
 		}
+		// the innermost container is empty or holds a scalar (a leaf inside the deepest legal container is NOT one level more)
+		leaf := r.pick([]string{"", "", "1", `"s"`, "true", "null", "1,2"})
 		if r.chance(1, 2) {
-			return nest("[", "]", d)
+			return []byte(strings.Repeat("[", d) + leaf + strings.Repeat("]", d))
 		}
-		return []byte(strings.Repeat("{\"a\":", d-1) + "[]" + strings.Repeat("}", d-1))
+		inner := "[" + leaf + "]"
+		if r.chance(1, 2) && leaf != "" && leaf != "1,2" {
+			inner = `{"k":` + leaf + `}`
+		}
+		return []byte(strings.Repeat("{\"a\":", d-1) + inner + strings.Repeat("}", d-1))
 	default:
 		c := cfgFor(r)
 		t := spell{r.n(3), r}.text(genValue(r, c, 0))
@@ -1484,6 +1490,27 @@ func genText(r *rng) []byte {
 			t = corrupt(r, t)
 		}
 		return t
+	}
+}
+
+// the nesting boundary, exhaustively for a small family of texts: depths 9999 / 10000 / 10001, arrays and objects, the
+// innermost container empty or holding a scalar, a pair of scalars or one member: every entry point (ENTRY) and the codec (VALID)
+func streamDeep() {
+	i := 0
+	for _, d := range []int{9999, 10000, 10001} {
+		for _, leaf := range []string{"1", `"s"`} {
+			texts := []string{strings.Repeat("[", d) + leaf + strings.Repeat("]", d),
+				strings.Repeat("{\"a\":", d-1) + "[" + leaf + "]" + strings.Repeat("}", d-1)}
+			if leaf == "1" {
+				texts = []string{strings.Repeat("{\"a\":", d-1) + `{"k":` + leaf + `}` + strings.Repeat("}", d-1)}
+			} else {
+				texts = texts[:1]
+			}
+			for _, t := range texts {
+				emitEntry(fmt.Sprintf("deep-n%d", i), []byte(t))
+				i++
+			}
+		}
 	}
 }
 
@@ -1535,6 +1562,8 @@ func emitEntry(id string, t []byte) {
 		return errors.New("unequal")
 	}))
 	bits = append(bits, acc(func() error { _, err := jsonpatch.DecodePatch(t); return err }))
+	bits = append(bits, acc(func() error { _, err := jsonpatch.CreateMergePatch(empty, t); return err }))
+	bits = append(bits, acc(func() error { _, err := jsonpatch.CreateMergePatch(t, empty); return err }))
 	emit("ENTRY %s %s => %s", id, hx(t), string(bits))
 }
 
@@ -1690,6 +1719,8 @@ func main() {
 		streamValidExhaustive(n)
 	case "entry":
 		streamEntry(r, n, pfx)
+	case "deep":
+		streamDeep()
 	case "bytes":
 		streamBytes(r, n, pfx)
 	case "scan":
@@ -1700,8 +1731,12 @@ func main() {
 		streamDec(&rng{s: r.next()}, n, pfx+"d")
 	case "dec":
 		streamDec(r, n, pfx)
+	case "typed":
+		streamTyped(r, n, pfx)
 	case "std":
 		streamStd(r, n, pfx)
+	case "streamprog":
+		streamProg(r, n, pfx, seed%1000 == 0)
 	case "hist":
 		streamHist(r, n, pfx)
 	case "conc":
